@@ -205,7 +205,13 @@ class Evaluator:
         return {self.ev(e) for e in n.elts}
 
     def _Dict(self, n):
-        return {self.ev(k): self.ev(v) for k, v in zip(n.keys, n.values)}
+        out = {}
+        for k, v in zip(n.keys, n.values):
+            if k is None:
+                out.update(self.ev(v))
+            else:
+                out[self.ev(k)] = self.ev(v)
+        return out
 
     def _UnaryOp(self, n):
         v = self.ev(n.operand)
